@@ -392,6 +392,17 @@ class ApiSpec:
     def on_handle_drop(self, eng, ev, st):
         return add(st, ("api_hdrop", ev.handle, ev.box))
 
+    def on_handle_new(self, eng, ev, st):
+        # from_raw must undo exactly what as_ptr/into_raw do: step back by the offset of the
+        # `value` field inside RcBox<T> (for this T, including its alignment padding)
+        if self.name in ("Rc::from_raw", "Weak::from_raw") and ev.ptr is not None:
+            eng.obl("API-1", self.name + ":offset", ev.b)
+            if any(f[0] == "dangling" for f in st.flags):
+                return None
+            if not steps_back_by_value_offset(ev.ptr):
+                eng.violate("API-1", "%s:not-inverse-of-as_ptr" % self.name, "%s does not recover the allocation by stepping back exactly the offset of RcBox<T>::value (it computes %s); for payloads whose alignment changes the padding the handle points into the wrong place" % (self.name, show(ev.ptr)[:160]), ev.b, st)
+        return None
+
     def on_event(self, eng, ev, st):
         if ev.kind == "set" and ev.field == "strong" and ev.cls == "inc":
             return add(st, ("api_inc",))
@@ -469,3 +480,48 @@ class Forward:
             if box_part(v) != (self.boxes[1][1], "value"):
                 eng.violate("FWD-1", "%s:not-the-value" % name, "%s does not return a reference to this object's value" % name, ev.b, st)
         return None
+
+
+def _strip_int_casts(e):
+    while e[0] == "cast" and e[1] in ("IntToInt",):
+        e = e[2]
+    return e
+
+
+def is_value_offset(d):
+    """`addr_of!((*base).value) as usize - base as usize` for some RcBox place `base`."""
+    d = _strip_int_casts(d)
+    if d[0] == "unk" and "OffsetOf" in str(d[1]):
+        return True
+    if d[0] != "bin" or d[1] not in ("Sub", "SubUnchecked"):
+        return False
+    a, b = _strip_int_casts(d[2]), _strip_int_casts(d[3])
+    if a[0] != "cast" or a[1] != "PtrToInt":
+        return False
+    bp = box_part(a[2])
+    if bp is None or bp[1] != "value":
+        return False
+    q = bp[0]
+    if q == ("cast", "IntToPtr", b):
+        return True
+    if b[0] == "cast" and b[1] == "PtrToInt" and b[2] == q:
+        return True
+    return False
+
+
+def steps_back_by_value_offset(ptr):
+    found = []
+
+    def pred(x):
+        if x[0] == "call" and x[2].rsplit("::", 1)[-1] in ("offset", "byte_offset", "wrapping_offset") and len(x[3]) == 2:
+            n = x[3][1]
+            if n[0] == "un" and n[1] == "Neg" and is_value_offset(n[2]):
+                found.append(True)
+            return True
+        if x[0] == "call" and x[2].rsplit("::", 1)[-1] in ("sub", "byte_sub", "wrapping_sub", "wrapping_byte_sub") and len(x[3]) == 2:
+            if is_value_offset(x[3][1]):
+                found.append(True)
+            return True
+        return False
+    mentions(ptr, pred)
+    return bool(found)
